@@ -9,7 +9,11 @@ package sleep
 // Manager.Poll is one too; time is virtual). A real sleep.Manager (persist on, scratch dir,
 // jitter 0, poll interval 60 s, poll duration 5 s) with recording callbacks is driven by
 //   pre     : operations main runs sequentially first (e.g. Sleep),
-//   threads : 1-3 harness threads each running a list from {sleep, wake},
+//   threads : 1-3 harness threads each running a list from {sleep, wake, wake@poll, wake@pollend};
+//             the two gated forms wait (blocked, so the poll and duration timers fire for free) until
+//             a poll is inside its OnPoll resp. OnPollEnd callback and then call Wake -- the callbacks
+//             contain a scheduling point, so "a Wake lands while the poll is inside the callback"
+//             costs a single preemption,
 //   the poll timer armed by the code itself (AfterFunc pseudo-thread -> Manager.Poll) and the
 //   in-poll time.After(PollDuration), both fired by the explorer,
 //   OnPoll mode : plain | getstate (reads GetState) | wake (re-enters Wake, as agent.doPoll does),
@@ -75,6 +79,7 @@ type c30World struct {
 	calls     map[int]*c30Call
 	changes   int
 	stalePoll bool // some Poll was still in progress when a Wake returned (collision)
+	inOnPoll, inOnPollEnd bool // latched: some poll has entered the callback (gates of wake@poll / wake@pollend)
 	polling   map[int]bool
 	log       []string
 	viol      []c30Viol
@@ -147,6 +152,14 @@ func (w *c30World) pollCallback(name string) {
 
 // call runs one Sleep/Wake on the current thread and judges the result (clause refuse).
 func (w *c30World) call(op string) {
+	switch op { // gated forms: wait (blocked) until a poll is inside the callback, then it is a plain Wake
+	case "wake@poll":
+		sched.Block("wait-OnPoll", func() bool { return w.inOnPoll })
+		op = "wake"
+	case "wake@pollend":
+		sched.Block("wait-OnPollEnd", func() bool { return w.inOnPollEnd })
+		op = "wake"
+	}
 	tid := sched.ThreadID()
 	outer := w.calls[tid] // re-entrant Wake from OnPoll: none outstanding for poll threads
 	st, _ := w.m.state.Peek().(State)
@@ -214,6 +227,8 @@ func c30Run(sc c30Scenario, c *vmc.Chooser) (*c30World, sched.Outcome) {
 		OnWake:  func() error { w.ev("OnWake"); return nil },
 		OnPoll: func() error {
 			w.pollCallback("OnPoll")
+			w.inOnPoll = true
+			sched.Point("in-OnPoll") // the reconnect takes a while: other threads may run meanwhile
 			switch sc.OnPoll {
 			case "getstate":
 				w.ev("GetState=%s", m.GetState())
@@ -222,7 +237,12 @@ func c30Run(sc c30Scenario, c *vmc.Chooser) (*c30World, sched.Outcome) {
 			}
 			return nil
 		},
-		OnPollEnd: func() error { w.pollCallback("OnPollEnd"); return nil },
+		OnPollEnd: func() error {
+			w.pollCallback("OnPollEnd")
+			w.inOnPollEnd = true
+			sched.Point("in-OnPollEnd") // the disconnect takes a while
+			return nil
+		},
 	})
 	sched.Observer = w.observe
 	defer func() { sched.Observer = nil }()
@@ -316,6 +336,28 @@ func c30Scenarios(r *vmc.Result) []c30Scenario {
 		for _, b := range base {
 			b.OnPoll = mode
 			out = append(out, b)
+		}
+	}
+	// directed shapes: the Wake arrives while a poll is inside OnPoll / OnPollEnd (the gate needs the
+	// callback to be reached, so not with the OnPoll mode that wakes by itself)
+	WP, WE := "wake@poll", "wake@pollend"
+	gated := []c30Scenario{
+		{Pre: []string{S}, Threads: [][]string{{WE}}},
+		{Pre: []string{S}, Threads: [][]string{{WE, S}}},
+		{Pre: []string{S}, Threads: [][]string{{WP}}},
+		{Pre: []string{S}, Threads: [][]string{{WP, S}}},
+		{Pre: []string{S}, Threads: [][]string{{WE}, {S}}},
+	}
+	if r.Thorough() {
+		gated = append(gated,
+			c30Scenario{Pre: []string{S}, Threads: [][]string{{WE}, {WP}}},
+			c30Scenario{Pre: []string{S}, Threads: [][]string{{WE, S, W}}},
+		)
+	}
+	for _, mode := range vmc.Pick(r, []string{"plain"}, []string{"plain", "getstate"}) {
+		for _, g := range gated {
+			g.OnPoll = mode
+			out = append(out, g)
 		}
 	}
 	return out
